@@ -660,10 +660,46 @@ async fn lock_stream(case: &Case, tp: &str, ex: &RefCell<Exec>, caps: &RefCell<C
             }
             "shutdown" => {
                 let p = pidx(f[1]);
-                let r = on!(w.peers[p].w(), s => { let mut s = s; s.shutdown().await });
+                let how = f.get(2).copied().unwrap_or("whole");
+                ex.borrow_mut().tag(format!("shutdown-{how}"));
+                if how == "ohalf" {
+                    w.peers[p].split();
+                }
+                let r = match how {
+                    // the borrowed write half of `split()`
+                    "half" => match w.peers[p].w() {
+                        S::Tcp(s) => {
+                            let (_r, mut h) = compio_io::util::Splittable::split(s);
+                            h.shutdown().await
+                        }
+                        S::Unix(s) => {
+                            let (_r, mut h) = compio_io::util::Splittable::split(s);
+                            h.shutdown().await
+                        }
+                    },
+                    // the stream itself, or the owned write half of `into_split()`
+                    _ => on!(w.peers[p].w(), s => { let mut s = s; s.shutdown().await }),
+                };
                 w.shut[p] = true;
                 match r {
-                    Ok(()) => "ok".into(),
+                    Ok(()) => {
+                        // the half-close must reach the peer: its socket reports the read side closed
+                        let fd = w.peers[1 - p].r().fd();
+                        let mut pfd = libc::pollfd { fd, events: libc::POLLRDHUP, revents: 0 };
+                        let t0 = Instant::now();
+                        let mut seen = false;
+                        while t0.elapsed() < Duration::from_millis(1500) {
+                            unsafe { libc::poll(&mut pfd, 1, 50) };
+                            if pfd.revents & libc::POLLRDHUP != 0 {
+                                seen = true;
+                                break;
+                            }
+                        }
+                        if !seen {
+                            ex.borrow_mut().fail("C14:shutdown-not-delivered", format!("{line}: shutdown() returned Ok but the peer's socket never saw the write side closed"));
+                        }
+                        "ok".into()
+                    }
                     Err(e) => err_str(&e),
                 }
             }
@@ -682,7 +718,14 @@ async fn lock_stream(case: &Case, tp: &str, ex: &RefCell<Exec>, caps: &RefCell<C
                     let gap = f[2].contains("vec") && has_prefilled_gap(&mems);
                     let capv = mem_caps(&mems);
                     ex.borrow_mut().tag(format!("recv-{}", f[2]));
-                    match recv_once(w.peers[p].r(), f[2], mems).await {
+                    let res = match compio_runtime::time::timeout(Duration::from_secs(2), recv_once(w.peers[p].r(), f[2], mems)).await {
+                        Ok(r) => r,
+                        Err(_) => {
+                            ex.borrow_mut().fail("C14:shutdown-not-delivered", format!("{line}: nothing in flight, the peer shut down, but the receive did not report the end of the stream within 2 s"));
+                            Err(io::Error::new(io::ErrorKind::TimedOut, "recv"))
+                        }
+                    };
+                    match res {
                         Ok(mut r) => {
                             if r.n == 0 && capv.iter().sum::<usize>() > 0 {
                                 if pending > 0 || !w.shut[d] {
@@ -710,7 +753,17 @@ async fn lock_stream(case: &Case, tp: &str, ex: &RefCell<Exec>, caps: &RefCell<C
                     wait_inq(fd, pending);
                     let len: usize = f[2].parse().unwrap();
                     ex.borrow_mut().tag("recv-managed");
-                    let r = on!(w.peers[p].r(), s => { let mut s = s; s.read_managed(len).await });
+                    let r = match compio_runtime::time::timeout(Duration::from_secs(2), async {
+                        on!(w.peers[p].r(), s => { let mut s = s; s.read_managed(len).await })
+                    })
+                    .await
+                    {
+                        Ok(r) => r,
+                        Err(_) => {
+                            ex.borrow_mut().fail("C14:shutdown-not-delivered", format!("{line}: managed receive did not report the end of the stream within 2 s"));
+                            Err(io::Error::new(io::ErrorKind::TimedOut, "recv"))
+                        }
+                    };
                     match r {
                         Ok(Some(buf)) => {
                             let got = buf.to_vec();
@@ -754,6 +807,9 @@ async fn lock_stream(case: &Case, tp: &str, ex: &RefCell<Exec>, caps: &RefCell<C
                     }
                     if pending == 0 && !ended && last_err.is_none() {
                         ex.borrow_mut().fail("C14:eof-missing", format!("{line}: multishot stream did not end after shutdown"));
+                    }
+                    if pending == 0 && last_err.as_deref() == Some("err:timeout") {
+                        ex.borrow_mut().fail("C14:shutdown-not-delivered", format!("{line}: the peer shut down but the multishot stream did not report the end of the stream within 3 s"));
                     }
                     let k = got.len().min(w.queue[d].len());
                     w.queue[d].drain(..k);
@@ -987,6 +1043,19 @@ fn drecv_finish(ex: &RefCell<Exec>, line: &str, w: &mut DgramWorld, d: usize, dr
     }
 }
 
+/// after a failure that leaves harness and socket out of step: throw away what is queued on both sides
+fn resync_dgram(w: &mut DgramWorld, p: usize, d: usize) {
+    let fd = w.socks[p].as_raw_fd();
+    let mut b = [0u8; 8];
+    for _ in 0..64 {
+        let r = unsafe { libc::recv(fd, b.as_mut_ptr() as *mut libc::c_void, b.len(), libc::MSG_DONTWAIT) };
+        if r < 0 {
+            break;
+        }
+    }
+    w.queue[d].clear();
+}
+
 async fn lock_dgram(case: &Case, tp: &str, drv: &str, buflen: usize, tos: bool, ex: &RefCell<Exec>, caps: &RefCell<Caps>) -> Vec<String> {
     let (a, b, aa, ba) = dgram_pair(tp, tos).await;
     let mut w = DgramWorld { socks: [a, b], addrs: [aa, ba], queue: [VecDeque::new(), VecDeque::new()] };
@@ -1042,7 +1111,14 @@ async fn lock_dgram(case: &Case, tp: &str, drv: &str, buflen: usize, tos: bool, 
                 let kind = f[2];
                 let mems = parse_shapes(f[3]);
                 ex.borrow_mut().tag(format!("drecv-{kind}"));
-                let r = drecv_call(&w.socks[p], kind, mems).await;
+                let r = match compio_runtime::time::timeout(Duration::from_secs(2), drecv_call(&w.socks[p], kind, mems)).await {
+                    Ok(r) => r,
+                    Err(_) => {
+                        ex.borrow_mut().fail("C14:dgram-mismatch", format!("{line}: a datagram is in flight but the receive did not complete within 2 s"));
+                        resync_dgram(&mut w, p, d);
+                        Err(io::Error::new(io::ErrorKind::TimedOut, "recv"))
+                    }
+                };
                 drecv_finish(ex, line, &mut w, d, drv, kind, f[3], r)
             }
             "drecvm" => {
@@ -1053,14 +1129,24 @@ async fn lock_dgram(case: &Case, tp: &str, drv: &str, buflen: usize, tos: bool, 
                 ex.borrow_mut().tag(format!("drecv-{kind}"));
                 let sock = &w.socks[p];
                 type R = io::Result<Option<(Vec<u8>, Option<std::net::SocketAddr>, Option<(usize, u32)>)>>;
-                let r: R = match kind {
-                    "managed" => sock.recv_managed(len).await.map(|o| o.map(|b| (b.to_vec(), None, None))),
-                    "frommanaged" => sock.recv_from_managed(len).await.map(|o| o.map(|(b, a)| (b.to_vec(), Some(a), None))),
-                    "msgmanaged" => sock
-                        .recv_msg_managed(len, AncillaryBuf::<64>::new())
-                        .await
-                        .map(|o| o.map(|(b, c, a, fl)| (b.to_vec(), Some(a), Some((c.as_init().len(), fl.bits() as u32))))),
-                    other => panic!("bad managed datagram kind {other}"),
+                let r: R = match compio_runtime::time::timeout(Duration::from_secs(2), async {
+                    match kind {
+                        "managed" => sock.recv_managed(len).await.map(|o| o.map(|b| (b.to_vec(), None, None))),
+                        "frommanaged" => sock.recv_from_managed(len).await.map(|o| o.map(|(b, a)| (b.to_vec(), Some(a), None))),
+                        "msgmanaged" => sock
+                            .recv_msg_managed(len, AncillaryBuf::<64>::new())
+                            .await
+                            .map(|o| o.map(|(b, c, a, fl)| (b.to_vec(), Some(a), Some((c.as_init().len(), fl.bits() as u32))))),
+                        other => panic!("bad managed datagram kind {other}"),
+                    }
+                })
+                .await
+                {
+                    Ok(r) => r,
+                    Err(_) => {
+                        ex.borrow_mut().fail("C14:dgram-mismatch", format!("{line}: a datagram is in flight but the managed receive did not complete within 2 s"));
+                        Err(io::Error::new(io::ErrorKind::TimedOut, "recv"))
+                    }
                 };
                 match r {
                     Ok(Some((data, from, ctl))) => {
@@ -1099,7 +1185,7 @@ async fn lock_dgram(case: &Case, tp: &str, drv: &str, buflen: usize, tos: bool, 
                     let sock = &w.socks[p];
                     let mut errs = 0;
                     macro_rules! drain {
-                        ($stream:expr, $conv:expr) => {{
+                        ($stream:expr, $conv:expr, $end_is_empty_datagram:expr) => {{
                             let mut s = std::pin::pin!($stream);
                             while items.len() < count {
                                 match compio_runtime::time::timeout(Duration::from_secs(3), s.next()).await {
@@ -1108,7 +1194,18 @@ async fn lock_dgram(case: &Case, tp: &str, drv: &str, buflen: usize, tos: bool, 
                                         break;
                                     }
                                     Ok(None) => {
-                                        last_err = Some("end".into());
+                                        if $end_is_empty_datagram {
+                                            // `recv_multi` (plain buffers) reports a 0-byte result as the end of the
+                                            // stream: that is how an empty datagram arrives; the caller starts over
+                                            items.push((vec![], None, None, None));
+                                            ex.borrow_mut().tag("multi-empty-datagram-ends-stream");
+                                        } else {
+                                            ex.borrow_mut().fail(
+                                                "C14:dgram-mismatch",
+                                                format!("{line}: the stream ended on a live socket after {} of {count} datagrams (datagram dropped)", items.len()),
+                                            );
+                                            last_err = Some("end".into());
+                                        }
                                         break;
                                     }
                                     Ok(Some(Ok(it))) => {
@@ -1129,19 +1226,23 @@ async fn lock_dgram(case: &Case, tp: &str, drv: &str, buflen: usize, tos: bool, 
                         }};
                     }
                     match kind {
-                        "multi" => drain!(sock.recv_multi(0), |b: compio_driver::BufferRef| (b.to_vec(), None, None, None)),
+                        "multi" => {
+                            while items.len() < count && last_err.is_none() {
+                                drain!(sock.recv_multi(0), |b: compio_driver::BufferRef| (b.to_vec(), None, None, None), true)
+                            }
+                        }
                         "frommulti" => drain!(sock.recv_from_multi(), |r: compio_driver::op::RecvFromMultiResult| (
                             r.data().to_vec(),
                             Some(from_name(&w, r.addr().and_then(|a| a.as_socket()))),
                             None,
                             None
-                        )),
+                        ), false),
                         "msgmulti" => drain!(sock.recv_msg_multi(clen), |r: compio_driver::op::RecvMsgMultiResult| (
                             r.data().to_vec(),
                             Some(from_name(&w, r.addr().and_then(|a| a.as_socket()))),
                             Some(r.flags().bits() as u32),
                             Some(r.ancillary().len())
-                        )),
+                        ), false),
                         other => panic!("bad multishot datagram kind {other}"),
                     }
                 }
@@ -1167,6 +1268,10 @@ async fn lock_dgram(case: &Case, tp: &str, drv: &str, buflen: usize, tos: bool, 
                 }
                 if items.len() < count && last_err.is_none() {
                     ex.borrow_mut().fail("C14:dgram-mismatch", format!("{line}: {} of {count} datagrams delivered", items.len()));
+                }
+                if items.len() < count {
+                    // whatever the dropped stream still held is gone: start the following lines from a clean state
+                    resync_dgram(&mut w, p, d);
                 }
                 match last_err {
                     Some(e) => format!("{} {e}", shown.join(";")),
@@ -2058,9 +2163,9 @@ fn gen_lock_stream(rng: &mut Rng, idx: usize, tp: &str, drv: &str) -> Case {
                 pend[p] += ch.split(',').map(|h| if h == "-" { 0 } else { h.len() / 2 }).sum::<usize>();
                 lines.push(format!("send {pn} {kind} {ch}"));
             }
-            5 if !shut[p] && rng.chance(1, 3) => {
+            5 if !shut[p] && rng.chance(1, 2) => {
                 shut[p] = true;
-                lines.push(format!("shutdown {pn}"));
+                lines.push(format!("shutdown {pn} {}", rng.pick(&["whole", "half", "half", "ohalf"])));
             }
             6 if rng.chance(1, 3) => lines.push(format!("split {pn}")),
             7 => {
@@ -2142,8 +2247,12 @@ fn gen_lock_dgram(rng: &mut Rng, idx: usize, tp: &str, drv: &str) -> Case {
             };
             let kind = *rng.pick(kinds);
             let max = *rng.pick(&[8usize, 100, 700, 6000]);
+            #[allow(unused_assignments)]
             let mut ch = gen_chunks(rng, kind.contains("vec"), max);
-            if multi_case && ch.split(',').all(|h| h == "-") {
+            // empty and one-byte datagrams for every receive flavour (also the multishot ones)
+            if rng.chance(1, 10) {
+                ch = if kind.contains("vec") { "-,-".into() } else { "-".into() };
+            } else if rng.chance(1, 12) {
                 ch = "5a".into();
             }
             pend[p] += 1;
